@@ -1,3 +1,103 @@
-import Holpy.Common.Sexp
-/- stub: replaced when the C01 model is built -/
-def main : IO Unit := Holpy.lineLoop (fun _ => "bad-op")
+import Holpy.Kernel.Wire
+import Holpy.Kernel.Oracle
+/-
+Line protocol of the kernel model (C01; also used by C03):
+  (rule NAME ARG (THM*))                      -> (ok THM) | (err KIND)        one checker step
+  (cex THM SPEC BUDGET SEED MAXCOST)          -> (valid N T|F) | (cex ((kind name Ty val)*)) | (skip WHY)
+       SPEC = (((name size)*) ((name size)*) ((name size)*) default)   sizes of stvars / tvars / type constructors
+  (aeq T1 T2) -> T|F            (gettype T) / (checktype T) -> (ok Ty) | (err KIND)
+  (substtype ((n Ty)*) T) (incr K T) (substbound ABS T) (betaconv T) (betanorm FUEL T)
+  (abstract T X) (occurs T X) (subst INST T)            -> (ok Term) | (err KIND) | T|F
+-/
+open Holpy Holpy.Wire
+
+namespace Holpy.C01.Driver
+
+def sizesOf (l : List Sexp) : Option (List (String × Nat)) :=
+  l.mapM fun
+    | .list [.atom n, s] => do some (n, ← s.toNat?)
+    | _ => none
+
+def specOf : Sexp → Option Oracle.Spec
+  | .list [.list a, .list b, .list c, d] => do
+    some ⟨← sizesOf a, ← sizesOf b, ← sizesOf c, ← d.toNat?⟩
+  | _ => none
+
+def okTerm : Except TErr Term → String
+  | .ok t => toString (Sexp.list [.atom "ok", termTo t])
+  | .error e => toString (Sexp.list [.atom "err", .atom (terrTo e)])
+
+def okTy : Except TErr Ty → String
+  | .ok t => toString (Sexp.list [.atom "ok", tyTo t])
+  | .error e => toString (Sexp.list [.atom "err", .atom (terrTo e)])
+
+def handle (line : String) : String :=
+  match Sexp.parse line with
+  | some (.list [.atom "rule", .atom name, arg, .list prems]) =>
+    match argOf arg, prems.mapM thmOf with
+    | some a, some ps =>
+      match checkStep name a ps with
+      | .ok th => toString (Sexp.list [.atom "ok", thmTo th])
+      | .error e => toString (Sexp.list [.atom "err", .atom (rerrTo e)])
+    | _, _ => "bad-op"
+  | some (.list [.atom "cex", th, spec, budget, seed, maxCost]) =>
+    match thmOf th, specOf spec, budget.toNat?, seed.toNat?, maxCost.toNat? with
+    | some t, some s, some b, some sd, some mc =>
+      match Oracle.search s.toModel t b sd mc with
+      | .valid n ex => toString (Sexp.list [.atom "valid", Sexp.ofNat n, Sexp.ofBool ex])
+      | .cex asg => toString (Sexp.list [.atom "cex", .list (asg.map fun (a, v) =>
+          .list [Sexp.ofNat a.1, .atom a.2.1, tyTo a.2.2, Sexp.ofNat v])])
+      | .skip w => toString (Sexp.list [.atom "skip", .atom (w.replace " " "_")])
+    | _, _, _, _, _ => "bad-op"
+  | some (.list [.atom "aeq", a, b]) =>
+    match termOf a, termOf b with
+    | some x, some y => toString (Sexp.ofBool (Term.aeq x y))
+    | _, _ => "bad-op"
+  | some (.list [.atom "gettype", a]) =>
+    match termOf a with
+    | some x => okTy (Term.getType [] x)
+    | none => "bad-op"
+  | some (.list [.atom "checktype", a]) =>
+    match termOf a with
+    | some x => okTy (Term.checkedGetType [] x)
+    | none => "bad-op"
+  | some (.list [.atom "substtype", .list σ, a]) =>
+    match tyInstOf σ, termOf a with
+    | some s, some x => okTerm (.ok (Term.substType s x))
+    | _, _ => "bad-op"
+  | some (.list [.atom "incr", k, a]) =>
+    match k.toNat?, termOf a with
+    | some n, some x => okTerm (.ok (Term.incrBoundvars n x))
+    | _, _ => "bad-op"
+  | some (.list [.atom "substbound", a, b]) =>
+    match termOf a, termOf b with
+    | some x, some y => okTerm (Term.substBound x y)
+    | _, _ => "bad-op"
+  | some (.list [.atom "betaconv", a]) =>
+    match termOf a with
+    | some x => okTerm (Term.betaConv x)
+    | none => "bad-op"
+  | some (.list [.atom "betanorm", k, a]) =>
+    match k.toNat?, termOf a with
+    | some n, some x => okTerm (Term.betaNorm n x)
+    | _, _ => "bad-op"
+  | some (.list [.atom "abstract", a, b]) =>
+    match termOf a, termOf b with
+    | some x, some y => okTerm (Term.abstractOver x y)
+    | _, _ => "bad-op"
+  | some (.list [.atom "occurs", a, b]) =>
+    match termOf a, termOf b with
+    | some x, some y => toString (Sexp.ofBool (Term.occursVar y x))
+    | _, _ => "bad-op"
+  | some (.list [.atom "subst", i, a]) =>
+    match argOf i, termOf a with
+    | some (.inst ins), some x =>
+      match Term.subst ins x with
+      | .ok (t, _) => okTerm (.ok t)
+      | .error e => okTerm (.error e)
+    | _, _ => "bad-op"
+  | _ => "bad-op"
+
+end Holpy.C01.Driver
+
+def main : IO Unit := Holpy.lineLoop Holpy.C01.Driver.handle
